@@ -163,7 +163,7 @@ def replay_file(payload):
         problems, _ = kalman.native_sequence(inp.get("seed", 0), linear=inp.get("linear", False), k_edit=3.0, cse=inp.get("cse"))
         print("replay C08 (filter sequence):", problems[:3] or "as specified")
         return not problems
-    if inp.get("branchy") or inp.get("passthrough"):
+    if inp.get("branchy") or inp.get("passthrough") or inp.get("rename"):
         from checks import C01
 
         return C01.replay_file(payload)
